@@ -1263,8 +1263,9 @@ func (c *Converter) constFiles(pkg gen.Package, types []*gen.TypeGenerator, prop
 func (c *Converter) allExtendsAreIn(registry *rdf.RDFRegistry, t rdf.VocabularyType, v map[string]*gen.TypeGenerator, genRefs map[string]*vocabulary) bool {
 	for _, e := range t.Extends {
 		if len(e.Vocab) != 0 {
-			_, err := existingType(registry, e, genRefs)
-			return err == nil
+			if _, err := existingType(registry, e, genRefs); err != nil {
+				return false
+			}
 		} else if _, ok := v[e.Name]; !ok {
 			return false
 		}
